@@ -14,10 +14,25 @@ import (
 func init() {
 	p := Registry["C16"]
 	p.Roles["s7prompt"] = Role{N: func(t string) int { return tierN(t, 6, 96) }, Case: c16Prompt, Procs: 4}
-	p.Rule += " S7 (role s7prompt): with every worker held, 40-120 Sends are issued one after the other with SendDuration 1-3 ms; each of them may wait for its SendDuration and no longer, however many Sends timed out before it. The burst is timed against a calibration run in the same process at the same moment (the same number of timer waits of SendDuration, measured right before and right after): a burst that takes more than ten times the slower calibration plus two seconds is reported (send-not-prompt), unless the two calibrations differ by more than a factor of five (machine load changed: inconclusive)."
+	p.Rule += " S7 (role s7prompt): with every worker held, 40-120 Sends are issued one after the other with SendDuration 1-3 ms; each of them may wait for its SendDuration and no longer, however many Sends timed out before it. The burst is timed against a calibration run in the same process at the same moment (the same number of timer waits of SendDuration, measured right before and right after): a burst that takes more than ten times the slower calibration plus two seconds is measured again on a fresh pool and reported (send-not-prompt) if it is slow again, unless the two calibrations differ by more than a factor of five (machine load changed: inconclusive)."
 }
 
+// c16Prompt: a burst that looks slow is measured a second time on a fresh pool; only two slow
+// bursts in a row are reported (a stall of the whole machine during one burst is not the pool's).
 func c16Prompt(tier string, seed int64, idx int, scratch string) rt.CaseResult {
+	first := c16PromptOnce(tier, seed, idx, 0)
+	if len(first.Violations) == 0 {
+		return first
+	}
+	second := c16PromptOnce(tier, seed, idx, 1)
+	if len(second.Violations) == 0 {
+		second.Count("slow_bursts_not_repeated", 1)
+		return second
+	}
+	return second
+}
+
+func c16PromptOnce(tier string, seed int64, idx int, attempt int) rt.CaseResult {
 	var c rt.CaseResult
 	rng := seqrun.Rng(seed, "C16p", idx)
 	workers := 1 + rng.Intn(3)
@@ -25,7 +40,7 @@ func c16Prompt(tier string, seed int64, idx int, scratch string) rt.CaseResult {
 	n := 40 + 40*(idx%3)
 	e := &c16Env{workers: workers, pool: verif.NewPool(verif.PoolOptions{NumWorkers: workers, SendDuration: sd}), t0: time.Now()}
 	e.pool.Run(context.Background())
-	replay := map[string]any{"seed": seed, "case": idx, "workers": workers, "send_duration": sd.String(), "sends": n}
+	replay := map[string]any{"seed": seed, "case": idx, "workers": workers, "send_duration": sd.String(), "sends": n, "attempt": attempt}
 	var blockers []*c16Job
 	for i := 0; i < workers; i++ {
 		j := e.newJob(true)
